@@ -113,14 +113,18 @@ def run(chk):
         ops = [0.5 * sz, 0.5 * sx] if it % 2 == 0 else [0.5 * sz]
         pts = [quiet(oqupy.pt_tempo_compute, oqupy.Bath(o, oqupy.PowerLawSD(alpha=0.2, zeta=1, cutoff=2.0, cutoff_type="exponential")),
                      0.0, N * 0.2, parameters=par, progress_type="silent") for o in ops]
-        base = oqupy.ParameterizedSystem(lambda x, y: x * sx + y * sz,
-                                         gammas=[lambda x, y: 0.1 + 0.05 * x * x], lindblad_operators=[lambda x, y: oqupy.operators.sigma("-")])
+        sm = oqupy.operators.sigma("-")
+        # Hamiltonian, rate AND Lindblad operator depend on the parameters
+        ham_f = lambda x, y: x * sx + y * sz
+        gam_f = lambda x, y: 0.1 + 0.05 * x * x
+        lop_f = (lambda x, y: np.cos(y) * sm + 0.5 * np.sin(y) * sz) if it % 3 != 2 else (lambda x, y: sm)
+        base = oqupy.ParameterizedSystem(ham_f, gammas=[gam_f], lindblad_operators=[lop_f])
         # both routes through the library's own get_propagator_derivatives: numerically differentiated / user supplied
         supplied = (it // 2) % 2 == 1
         if supplied:
-            psys = oqupy.ParameterizedSystem(lambda x, y: x * sx + y * sz,
-                                             gammas=[lambda x, y: 0.1 + 0.05 * x * x], lindblad_operators=[lambda x, y: oqupy.operators.sigma("-")],
-                                             propagator_derivatives=lambda dt, p: base.halfstep_propagator_derivative(dt)(p))
+            helper = oqupy.ParameterizedSystem(ham_f, gammas=[gam_f], lindblad_operators=[lop_f])
+            psys = oqupy.ParameterizedSystem(ham_f, gammas=[gam_f], lindblad_operators=[lop_f],
+                                             propagator_derivatives=lambda dt, p: helper.halfstep_propagator_derivative(dt)(p))
         else:
             psys = base
         # parameter tables: generic, and degenerate ones (a control held constant within a step / throughout)
@@ -147,10 +151,28 @@ def run(chk):
             chk.fail("gradient-raises", f"state_gradient raises {ex!r}", info)
             continue
 
+        def own_liouvillian(x, y):
+            # independent of ParameterizedSystem: row-major vectorisation, vec(A rho B) = kron(A, B^T) vec(rho)
+            H, g, A = ham_f(x, y), gam_f(x, y), lop_f(x, y)
+            I2 = np.eye(2)
+            AdA = A.conj().T @ A
+            return (-1j * (np.kron(H, I2) - np.kron(I2, H.T))
+                    + g * (np.kron(A, A.conj()) - 0.5 * np.kron(AdA, I2) - 0.5 * np.kron(I2, AdA.T)))
+
+        def forward(pp):
+            from scipy.linalg import expm
+            props = [(expm(own_liouvillian(*pp[2 * k]) * 0.1), expm(own_liouvillian(*pp[2 * k + 1]) * 0.1)) for k in range(N)]
+            return quiet(oqupy.compute_dynamics, InjSystem(2, props), initial_state=rho0, process_tensor=pts, dt=0.2, num_steps=N,
+                         progress_type="silent")
+
         def obj(pp):
-            r = quiet(compute_gradient_and_dynamics, system=base, initial_state=rho0, target_derivative=target, process_tensors=pts,
-                      parameters=pp, dt=0.2, num_steps=N, progress_type="silent")[1]
-            return np.sum(target.reshape(-1) * np.array(r.states[-1]).reshape(-1)).real
+            return np.sum(target.reshape(-1) * np.array(forward(pp).states[-1]).reshape(-1)).real
+        # the dynamics reported with the gradient are the forward dynamics of the system (independent propagators)
+        fw = forward(params)
+        ddev = max(np.abs(np.array(a) - np.array(b)).max() for a, b in zip(res["dynamics"].states, fw.states))
+        if len(res["dynamics"].states) != N + 1 or ddev > 1e-9:
+            chk.fail("gradient-dynamics-differ", f"state_gradient reports dynamics that deviate by {ddev:.2e} from the forward dynamics with the "
+                     f"system's propagators ({shape} parameter table, {info['derivatives']} propagator derivatives)", info)
         worst, where = 0.0, None
         for k in range(2 * N):
             for j in range(2):
@@ -177,7 +199,7 @@ def run(chk):
         rule="integer process tensors (1-2 environments, rank 3/4, trivial last bond), integer propagators and 'derivatives', M=1-3 parameters, "
              "N=1-3: every gradient entry compared exactly with the objective re-evaluated at the derivative (multilinearity), reported "
              "dynamics with compute_dynamics, adjoint tensors with the Coq model; finite differences on PT-TEMPO tensors with a "
-             "parameter-dependent dissipator, generic and degenerate parameter tables (a control constant within a step, within a column, "
+             "parameter-dependent rate and Lindblad operator (forward oracle: own Lindbladian + expm, not ParameterizedSystem), generic and degenerate parameter tables (a control constant within a step, within a column, "
              "throughout), numerically differentiated and user-supplied propagator derivatives; distinct = distinct configuration",
         assumptions=["propagator derivatives supplied by the user / numerically differentiated by the library are taken as given (contract)",
                      "process tensors with a non-trivial final bond are outside the gradient code's domain (it ignores the final cap)"])
